@@ -16,12 +16,13 @@ def run (line : String) : String :=
     | some vs, some sigs, some h, some ch, some bits =>
       let ok := fun (_ j : Nat) => bits.getD j 0 == 1
       showOutcome (verifyCommitLight ok Lumina.Gen.C03.LIGHT_NUM Lumina.Gen.C03.LIGHT_DEN vs h ch sigs) bits
+        ((natListArg? ws "ibits").getD [])
     | _, _, _, _, _ => "bad-op"
   | "trusting" :: _ =>
     match parseSet ws "", parseSigs ws "", natArg? ws "tn", natArg? ws "td", natListArg? ws "bits" with
     | some vs, some sigs, some tn, some td, some bits =>
       let ok := fun (_ j : Nat) => bits.getD j 0 == 1
-      showOutcome (verifyCommitLightTrusting ok tn td vs sigs) bits
+      showOutcome (verifyCommitLightTrusting ok tn td vs sigs) bits ((natListArg? ws "ibits").getD [])
     | _, _, _, _, _ => "bad-op"
   | "reset" :: _ => "ok"
   | _ => "bad-op"
@@ -31,23 +32,42 @@ def step (_ : Unit) (line : String) : Unit × String := ((), run line)
 open Lumina.Spec.C03 in
 def spec (_ : Unit) (op : String) (obs : String) : String :=
   let ws := words op
-  let accepted := (words obs).head? == some "ok"
+  let ows := words obs
+  let accepted := ows.head? == some "ok"
+  -- validity bits as the implementation's result line reports them (recomputed by `run`):
+  -- `bits` through lumina's own vote_sign_bytes, `ibits` over the independently encoded canonical vote
+  let signBytesFail := "specfail C03/sign-bytes signature validity through lumina's vote_sign_bytes differs from validity over the canonical vote"
   match ws with
   | "light" :: _ =>
-    match parseSet ws "", parseSigs ws "", natArg? ws "h", natArg? ws "ch", natListArg? ws "bits" with
-    | some vs, some sigs, some h, some ch, some bits =>
-      if !vs.wf then "specskip"
+    match parseSet ws "", parseSigs ws "", natArg? ws "h", natArg? ws "ch", obsNatList ows ws "bits", obsNatList ows ws "ibits" with
+    | some vs, some sigs, some h, some ch, some lbits, some bits =>
+      if lbits != bits then signBytesFail
+      else if !vs.wf then "specskip"
       else
         let inp := specInput vs h ch sigs
         let valid := fun (i j : Nat) => i == j && bits.getD j 0 == 1
         if !specLightSound inp valid accepted then "specfail C03/light-sound accepted without 2/3 of valid power"
         else if !specLightExact inp valid accepted then "specfail C03/light-exact verdict differs from (signing power > 2/3)"
         else "specok"
-    | _, _, _, _, _ => "specfail C03/unparsed"
+    | _, _, _, _, _, _ => "specfail C03/unparsed"
   | "trusting" :: _ =>
-    match parseSet ws "", parseSigs ws "", natArg? ws "tn", natArg? ws "td", natListArg? ws "bits" with
-    | some vs, some sigs, some tn, some td, some bits =>
-      if !vs.wf || tn != 1 || td != 3 then "specskip"
+    match parseSet ws "", parseSigs ws "", natArg? ws "tn", natArg? ws "td", obsNatList ows ws "bits", obsNatList ows ws "ibits" with
+    | some vs, some sigs, some tn, some td, some lbits, some bits =>
+      if lbits != bits then signBytesFail
+      else if !vs.wf then "specskip"
+      else if tn != 1 || td != 3 then
+        -- other trust levels: the same two clauses at level tn/td
+        let inp := specInput vs 0 0 sigs
+        let addrs := vs.vals.map (·.addr)
+        let valid := fun (i j : Nat) =>
+          bits.getD j 0 == 1 && (match sigs[j]? with
+            | some s => firstIdx addrs s.addr == some i
+            | none => false)
+        if !specTrustingSoundLevel tn td inp valid accepted then
+          s!"specfail C03/trusting-sound-level accepted without {tn}/{td} of valid trusted power"
+        else if !specTrustingExactLevel tn td inp valid accepted then
+          s!"specfail C03/trusting-exact-level verdict differs from (distinct trusted signing power > {tn}/{td})"
+        else "specok"
       else
         let inp := specInput vs 0 0 sigs
         let addrs := vs.vals.map (·.addr)
@@ -59,7 +79,7 @@ def spec (_ : Unit) (op : String) (obs : String) : String :=
         if !specTrustingSound inp valid accepted then "specfail C03/trusting-sound accepted without 1/3 of valid trusted power"
         else if !specTrustingExact inp valid accepted then "specfail C03/trusting-exact verdict differs from (distinct trusted signing power > 1/3)"
         else "specok"
-    | _, _, _, _, _ => "specfail C03/unparsed"
+    | _, _, _, _, _, _ => "specfail C03/unparsed"
   | "reset" :: _ => "specskip"
   | _ => "specfail C03/unparsed"
 
